@@ -25,6 +25,7 @@ import (
 	"math"
 	"os"
 	"os/exec"
+	"path/filepath"
 	"sort"
 	"strconv"
 	"strings"
@@ -34,6 +35,7 @@ import (
 	"github.com/influxdata/kapacitor"
 	"github.com/influxdata/kapacitor/edge"
 	"github.com/influxdata/kapacitor/models"
+	"github.com/influxdata/kapacitor/services/replay"
 
 	"verifharness/kit"
 )
@@ -282,6 +284,10 @@ func execCaseOpt(ops []string, doReplay bool) (out []string) {
 		buf       bytes.Buffer
 		srcs      [][]byte // completed batch sources (op `src` closes one)
 		recErr    bool
+		fileMode  bool                           // record through the service's writers into a .srpl / .brpl file
+		fpoints   []edge.PointMessage            // file mode: the points to record
+		fbatches  [][]edge.BufferedBatchMessage  // file mode: the batches of the completed sources
+		fcur      []edge.BufferedBatchMessage    // file mode: the batches of the current source
 	)
 	for _, raw := range ops {
 		line := raw
@@ -292,10 +298,12 @@ func execCaseOpt(ops []string, doReplay bool) (out []string) {
 		if len(t) == 0 {
 			continue
 		}
-		need := map[string]int{"stream": 4, "batch": 3, "pt": 7, "b": 6}
+		need := map[string]int{"stream": 4, "batch": 3, "pt": 7, "b": 6, "replay": 1, "src": 1}
 		if t[0] == "src" {
 			srcs = append(srcs, append([]byte(nil), buf.Bytes()...))
 			buf.Reset()
+			fbatches = append(fbatches, fcur)
+			fcur = nil
 			out = append(out, line)
 			continue
 		}
@@ -306,12 +314,18 @@ func execCaseOpt(ops []string, doReplay bool) (out []string) {
 		switch t[0] {
 		case "stream":
 			mode, recTime, zero, precision = "stream", t[1] == "1", parseTime(t[2]), t[3]
+			fileMode = len(t) > 4 && t[4] == "file"
+			if fileMode {
+				precision = replay.VerifRecordingPrecision
+			}
 			out = append(out, line)
 		case "batch":
 			mode, recTime, zero = "batch", t[1] == "1", parseTime(t[2])
+			fileMode = len(t) > 3 && t[3] == "file"
 			out = append(out, line)
 		case "pt":
 			p := edge.NewPointMessage(un(t[3]), un(t[1]), un(t[2]), models.Dimensions{}, parseFields(t[5]), parseTags(t[4]), parseTime(t[6]))
+			fpoints = append(fpoints, p)
 			func() {
 				defer func() {
 					if r := recover(); r != nil {
@@ -336,6 +350,7 @@ func execCaseOpt(ops []string, doReplay bool) (out []string) {
 				}
 			}
 			b := edge.NewBufferedBatchMessage(edge.NewBeginBatchMessage(un(t[1]), parseTags(t[4]), t[2] == "1", parseTime(t[3]), len(pts)), pts, edge.NewEndBatchMessage())
+			fcur = append(fcur, b)
 			func() {
 				defer func() {
 					if r := recover(); r != nil {
@@ -361,13 +376,72 @@ func execCaseOpt(ops []string, doReplay bool) (out []string) {
 				continue
 			}
 			clk := &recClock{zero: zero, last: "-"}
+			var fileStream io.ReadCloser
+			var fileBatches []io.ReadCloser
+			if fileMode {
+				// record with the service's own writers into a recording file, open it with the service's readers
+				ferr := func() (err error) {
+					defer func() {
+						if r := recover(); r != nil {
+							err = fmt.Errorf("panic: %v", r)
+						}
+					}()
+					dir := os.Getenv("VERIF_SCRATCH")
+					if dir == "" {
+						dir = os.TempDir()
+					}
+					ext := ".srpl"
+					if mode == "batch" {
+						ext = ".brpl"
+					}
+					path := filepath.Join(dir, fmt.Sprintf("c18-%d%s", os.Getpid(), ext))
+					defer os.Remove(path) // the open readers keep the file alive
+					ds := replay.VerifFileSource(path)
+					if mode == "stream" {
+						ch := make(chan edge.PointMessage, len(fpoints))
+						for _, p := range fpoints {
+							ch <- p
+						}
+						close(ch)
+						if err := replay.VerifSaveStream(ds, ch); err != nil {
+							return err
+						}
+						fileStream, err = ds.StreamReader()
+						return err
+					}
+					var chans []<-chan edge.BufferedBatchMessage
+					for _, bs := range append(fbatches, fcur) {
+						ch := make(chan edge.BufferedBatchMessage, len(bs))
+						for _, b := range bs {
+							ch <- b
+						}
+						close(ch)
+						chans = append(chans, ch)
+					}
+					if err := replay.VerifSaveBatches(ds, chans); err != nil {
+						return err
+					}
+					fileBatches, err = ds.BatchReaders()
+					return err
+				}()
+				if ferr != nil {
+					out = append(out, line+" => recerr 0 0")
+					continue
+				}
+			}
 			if mode == "batch" {
 				all := append(srcs, append([]byte(nil), buf.Bytes()...))
 				var datas []io.ReadCloser
 				var cols []*collector
 				var bcols []kapacitor.BatchCollector
-				for _, d := range all {
-					datas = append(datas, nopCloser{bytes.NewReader(d)})
+				for i, d := range all {
+					if fileMode && i < len(fileBatches) {
+						datas = append(datas, fileBatches[i])
+					} else if fileMode {
+						continue // the archive has fewer entries than sources: visible as a missing source
+					} else {
+						datas = append(datas, nopCloser{bytes.NewReader(d)})
+					}
 					c := &collector{clk: clk, multi: len(all) > 1}
 					cols = append(cols, c)
 					bcols = append(bcols, c)
@@ -412,7 +486,10 @@ func execCaseOpt(ops []string, doReplay bool) (out []string) {
 				continue
 			}
 			col := &collector{clk: clk}
-			data := nopCloser{bytes.NewReader(buf.Bytes())}
+			var data io.ReadCloser = nopCloser{bytes.NewReader(buf.Bytes())}
+			if fileMode {
+				data = fileStream
+			}
 			var status string
 			func() {
 				defer func() {
